@@ -339,6 +339,7 @@ func glueTransform(r *Rng, n int, st *Stats, cf *CoqFile) {
 		o := randGlueOpts(r)
 		g := &sheetGen{r: r, hist: hist}
 		g.o.nesting = r.Chance(45)
+		g.o.namespaces = r.Chance(25)
 		g.o.layers = r.Chance(60)
 		// wide-gamut colours only when nothing lowers them
 		g.o.wideColors = len(o.engines) == 0 && !o.minifySyntax && r.Chance(40)
@@ -488,6 +489,8 @@ func glueCorpus(r *Rng, st *Stats) {
 	mk("a", 3)
 	mk("span", 0)
 	mk("b", 4)
+	mk("a", 0)
+	d.nodes[len(d.nodes)-1].ns = "http://a"
 	count := map[int]int{}
 	for i := range d.nodes {
 		d.nodes[i].index = count[d.nodes[i].parent]
@@ -518,6 +521,8 @@ func glueCorpus(r *Rng, st *Stats) {
 		{"a{bottom:3px;inset:2vw 1em 10% 0px;bottom:1vw}", glueOpts{loader: api.LoaderCSS, engines: []api.Engine{{Name: api.EngineFirefox, Version: "65"}}, desc: "loader=css target=firefox65"}, "inset-lowering-splits-value-invalidation"},
 		{"div > a { :is(&, span) { color: red } } div > b { color: blue; :not(&) { order: 1 } }", noNest, ""},
 		{"a ~ b { :is(&, span) { color: red } } a + b { :not(&) { order: 2 } }", noNest, ""},
+		// must pass (fix a469678): rules that differ only in the namespace prefix are not duplicates
+		{"@namespace a url(http://a);@namespace b url(http://b);a|a{color:red}a{color:blue}b|a{color:red}", min, ""},
 		// directed probes (must pass): importance is part of a declaration's identity; layers keep first-declaration order
 		{"a{color:red!important;color:red} a.c1{color:blue}", min, ""},
 		{"a{color:red!important} a.c1{color:blue} a{color:red}", min, ""},
